@@ -414,7 +414,10 @@ def _is_sharing_guard(ctx, fi) -> bool:
                     kinds.add(x.id)
                 elif isinstance(x, ast.Attribute):
                     kinds.add(x.attr)
-    covers = "list" in kinds and ({"Mapping", "dict"} & kinds) and "CBORTag" in kinds and "bytes" in kinds and "str" in kinds
+    # maps: cbor2 >= 6 decodes a map inside a tag (everything below the tag-107 envelope) as frozendict, which is a Mapping but not a
+    # dict (library fact re-derived by the thorough tier): a test for dict alone walks nothing below the envelope tag
+    maps_ok = "Mapping" in kinds or {"dict", "frozendict"} <= kinds
+    covers = "list" in kinds and maps_ok and "CBORTag" in kinds and "bytes" in kinds and "str" in kinds
     loops = any(isinstance(n, (ast.While, ast.For)) for n in ast.walk(node)) or any(
         isinstance(n, ast.Call) and isinstance(n.func, (ast.Name, ast.Attribute)) and ast.unparse(n.func).split(".")[-1] == fi.name for n in ast.walk(node))
     return bool(tested and covers and loops)
